@@ -346,6 +346,35 @@ theorem randomCropG_two (sz : AxMap → Int) (g : Geom) (c0 c1 s0 s1 : Int)
     List.getElem?_cons_zero, List.getElem?_cons_succ, List.getElem?_nil, e0, e1, f0, f1, optItemSlice_none, axisOfSlice_none,
     pure, Except.pure]
 
+/-- a requested shape of one entry crops the first axis only -/
+theorem randomCropG_one (sz : AxMap → Int) (g : Geom) (c0 s0 : Int) (h0 : 1 ≤ c0 ∧ c0 ≤ g.n0 ∧ 0 ≤ s0 ∧ s0 ≤ g.n0 - c0) :
+    randomCropG sz g [c0] [s0] =
+      .ok (g.remap sz ⟨s0, 1, c0, c0, s0, 1⟩ ⟨0, 1, g.n1, g.n1, 0, 1⟩ ⟨0, 1, g.n2, g.n2, 0, 1⟩,
+           remapSrc ⟨s0, 1, c0, c0, s0, 1⟩ ⟨0, 1, g.n1, g.n1, 0, 1⟩ ⟨0, 1, g.n2, g.n2, 0, 1⟩) := by
+  have a0 : randomCropAxis c0 g.n0 s0 = .ok (0, g.n0 - c0 + 1, s0, s0 + c0) := by
+    unfold randomCropAxis
+    have : ¬ (g.n0 - c0 < 0) := by omega
+    simp [this]
+  have b0 : ¬ (s0 < 0 ∨ g.n0 - c0 + 1 ≤ s0) := by omega
+  have items : randomCropItems g [c0] [s0] = .ok [Item.slice (some s0) (some (s0 + c0)) none] := by
+    simp only [randomCropItems, List.zip, List.zipWith, randomCropGo, a0, bind, Except.bind, b0, if_false, pure, Except.pure]
+  have r0 := range_axis_accept (n := g.n0) (f := s0) (e := s0 + c0) h0.2.2.1 (by omega) (by omega)
+  simp only [add_sub_cancel_left] at r0
+  obtain ⟨t0, e0, f0⟩ := bind_ok.mp r0
+  have : ¬ (0 + 1 > 3) := by decide
+  simp only [randomCropG, items, bind, Except.bind, getitemG, getitemMaps, List.length_cons, List.length_nil, this, if_false,
+    List.getElem?_cons_zero, List.getElem?_cons_succ, List.getElem?_nil, e0, f0, optItemSlice_none, axisOfSlice_none,
+    pure, Except.pure]
+
+/-- an empty requested shape: nothing is cropped, nothing is drawn -/
+theorem randomCropG_none (sz : AxMap → Int) (g : Geom) :
+    randomCropG sz g [] [] =
+      .ok (g.remap sz ⟨0, 1, g.n0, g.n0, 0, 1⟩ ⟨0, 1, g.n1, g.n1, 0, 1⟩ ⟨0, 1, g.n2, g.n2, 0, 1⟩,
+           remapSrc ⟨0, 1, g.n0, g.n0, 0, 1⟩ ⟨0, 1, g.n1, g.n1, 0, 1⟩ ⟨0, 1, g.n2, g.n2, 0, 1⟩) := by
+  have : ¬ (0 > 3) := by decide
+  simp only [randomCropG, randomCropItems, List.zip, List.zipWith, randomCropGo, bind, Except.bind, getitemG, getitemMaps,
+    List.length_nil, this, if_false, List.getElem?_nil, optItemSlice_none, axisOfSlice_none, pure, Except.pure]
+
 /-- a requested size larger than the axis is refused before anything is drawn (ValueError) -/
 theorem randomCropAxis_refuses (c n s : Int) (h : n < c) : randomCropAxis c n s = .error .value := by
   unfold randomCropAxis
